@@ -278,8 +278,10 @@ def rule_depr_origin(ctx):
                 obs.append(ok('DEPR-ORIGIN', inst, 'spread fields are never deprecated', node.get('sp', '')))
             else:
                 obs.append(bad('DEPR-ORIGIN', inst, 'a fragment-spread field carries a deprecation', node.get('sp', ''), 'non-deprecated positions are marked / omitted'))
-    if n < 5:
-        obs.append(bad('DEPR-ORIGIN', 'floor', 'anchor-missing: expected >= 5 ExpandedField constructions, found %d' % n))
+    named_n = sum(1 for o in obs if '/named[' in o.instance)
+    spread_n = sum(1 for o in obs if o.instance.endswith('/spread'))
+    if named_n < 3 or spread_n < 1:
+        obs.append(bad('DEPR-ORIGIN', 'floor', 'anchor-missing: expected >= 3 named-field and >= 1 spread-field constructions of ExpandedField, found %d/%d' % (named_n, spread_n)))
     return obs
 
 
@@ -329,25 +331,44 @@ def rule_attr_scanner(ctx):
             obs.append(undecided('SCAN-GUARD', inst, 'scanner shape not recognised', fn.loc))
         if needs_value:
             # returned / pushed values come from syn::LitStr::value() of the parsed literal
-            vals = [n for n in walk(fn.body) if n['k'] == 'mcall' and n['method'] == 'value' and 'LitStr' in (n['recv'].get('ty', '') + n['recv'].get('aty', ''))]
+            # every produced value (returned `Ok(v)` / pushed `v`) is syn::LitStr::value() of the parsed literal,
+            # possibly obtained in a helper; no string surgery on the way
+            XF = {'trim', 'trim_matches', 'trim_start_matches', 'trim_end_matches', 'trim_start', 'trim_end', 'replace', 'replacen',
+                  'strip_prefix', 'strip_suffix', 'split', 'to_lowercase', 'to_uppercase', 'to_ascii_lowercase', 'to_ascii_uppercase',
+                  'get', 'split_at', 'chars', 'repr'}
             outs = []
             for n in walk(fn.body):
                 if n['k'] == 'ret' and n.get('e') is not None:
                     outs.append(n['e'])
                 if n['k'] == 'mcall' and n['method'] == 'push' and n['args']:
                     outs.append(n['args'][0])
-            good = bool(vals)
-            for o in outs:
-                txt = repr(o)
-                if "'method': 'value'" not in txt and 'Err' not in txt[:400] and "'name': 'result'" not in txt[:600]:
-                    # an Ok(<something not produced by LitStr::value()>)
-                    if "'path': 'std::prelude::v1::Ok'" in txt[:600] or 'push' in txt[:50]:
-                        good = False
+            tail = fn.body.get('expr')
+            if tail is not None:
+                outs.append(tail)
+            vals = []
+            good = True
             xf = set()
+            pushes = bool([n for n in walk(fn.body) if n['k'] == 'mcall' and n['method'] == 'push'])
             for o in outs:
+                dn = list(H.deep_nodes(ctx, fn, o, 2, None, True))
+                vs = [n for _f, n in dn if n['k'] == 'mcall' and n['method'] == 'value' and 'LitStr' in (n['recv'].get('ty', '') + n['recv'].get('aty', ''))]
+                vals += vs
+                is_err = any(n['k'] in ('call', 'path') and (n.get('callee') or n.get('res') or {}).get('path', '').endswith('::Err') for _f, n in dn if n is o or True) and not vs
+                oty = o.get('ty', '')
+                produces = ('String' in oty) and not is_err
+                if o['k'] == 'call' and (o.get('callee') or {}).get('path', '').endswith('::Err'):
+                    produces = False
+                if pushes and o['k'] != 'mcall' and 'Vec<' in oty and not vs:
+                    # `Ok(result)`: the vector the pushes went into
+                    produces = False
+                if produces and not vs:
+                    good = False
+                if vs:
+                    xf |= {n['method'] for _f, n in dn if n['k'] == 'mcall' and n['method'] in XF and
+                           ('str' in (n['recv'].get('ty', '') + n['recv'].get('aty', '')) or 'String' in (n['recv'].get('ty', '') + n['recv'].get('aty', '')))}
                 for _, xs in TM.paths(ctx.pv.eval(fn, o, senv, 0)):
-                    xf |= set(xs)
-            if xf & {'trim', 'replace', 'strip', 'split', 'lower', 'upper'}:
+                    xf |= set(xs) & {'trim', 'replace', 'strip', 'split', 'lower', 'upper'}
+            if not vals or xf:
                 good = False
             if good:
                 obs.append(ok('VALUE-PARSE', inst, 'values are the parsed string literal\'s value (syn::LitStr::value)', fn.loc))
